@@ -12,6 +12,8 @@ impl Story {
     /// [`Choice`](crate::choice::Choice) points to, ready
     /// to continue story evaluation.
     pub fn choose_choice_index(&mut self, choice_index: usize) -> Result<(), StoryError> {
+        self.if_async_we_cant("choose a choice")?;
+
         let choices = self.get_current_choices();
         if choice_index >= choices.len() {
             return Err(StoryError::BadArgument("choice out of range".to_owned()));
